@@ -340,4 +340,37 @@ pub fn hcalc_schur_shapes(s: &mut Src) -> R {
     Ok(())
 }
 
-crate::harness_table!(HCALC: hcalc_small, hcalc_schur_small, hcalc_triang_small, hcalc_reducer_small, hcalc_decomp_small, hcalc_scrambled, hcalc_reducer_scrambled, hcalc_schur_shapes);
+// C12 triangular solvers on arbitrary sizes (BOUNDED, sampled): N in 0..=5, right-hand sides with 0..=3 columns (rows for the left variant),
+// sparse right-hand sides (many zeros, so the multi-column driver meets empty and partially empty columns), stored zeros optional.
+pub fn hcalc_triang_shapes(s: &mut Src) -> R {
+    use yui::FF;
+    use yui_matrix::sparse::triang::{solve_triangular, solve_triangular_left, solve_triangular_vec, TriangularType};
+    use yui_matrix::sparse::SpVec;
+    type F = FF<5>;
+    let nn = s.small(0, 5) as usize; let k = s.small(0, 3) as usize;
+    let mut e = [0i64; 25]; let mut y = [0i64; 15];
+    for x in e.iter_mut() { *x = s.small(0, 4); }
+    for x in y.iter_mut() { let v = s.small(0, 9); *x = if v > 4 { 0 } else { v }; }
+    let (upper, stored_zeros) = (s.bool(), s.bool());
+    pre!((0..nn).all(|i| e[i * 5 + i] != 0));
+    reach!();
+    let f = |x: i64| F::new(x as i32);
+    let full = SpMat::from_dense_data((nn, nn), (0..nn).flat_map(|i| (0..nn).map(move |j| (i, j))).map(|(i, j)| f(e[i * 5 + j])).collect::<Vec<_>>());
+    let keep = |i: usize, j: usize| if upper { i <= j } else { i >= j };
+    let tri_entries = |kk: bool| (0..nn).flat_map(|i| (0..nn).map(move |j| (i, j))).filter(|&(i, j)| keep(i, j) == kk).map(|(i, j)| (i, j, f(e[i * 5 + j]))).collect::<Vec<_>>();
+    let a = if stored_zeros { &full - &SpMat::from_entries((nn, nn), tri_entries(false)) } else { SpMat::from_entries((nn, nn), tri_entries(true)) };
+    let t = if upper { TriangularType::Upper } else { TriangularType::Lower };
+    ob!(a.is_triang(t), "harness::a-is-triangular");
+    let ym = SpMat::from_dense_data((nn, k), (0..nn).flat_map(|i| (0..k).map(move |j| (i, j))).map(|(i, j)| f(y[j * 5 + i])).collect::<Vec<_>>());
+    let x = solve_triangular(t, &a, &ym);
+    ob!(x.shape() == (nn, k) && (&a * &x).into_dense() == ym.clone().into_dense(), "solve_triangular::A.X==Y");
+    let yl = ym.transpose();
+    let xl = solve_triangular_left(t, &a, &yl);
+    ob!(xl.shape() == (k, nn) && (&xl * &a).into_dense() == yl.into_dense(), "solve_triangular_left::X.A==Y");
+    let yv = SpVec::from((0..nn).map(|i| f(y[i])).collect::<Vec<_>>());
+    let xv = solve_triangular_vec(t, &a, &yv);
+    ob!(xv.dim() == nn && (&a * &xv).to_dense() == yv.to_dense(), "solve_triangular_vec::A.x==y");
+    Ok(())
+}
+
+crate::harness_table!(HCALC: hcalc_small, hcalc_schur_small, hcalc_triang_small, hcalc_reducer_small, hcalc_decomp_small, hcalc_scrambled, hcalc_reducer_scrambled, hcalc_schur_shapes, hcalc_triang_shapes);
